@@ -145,6 +145,8 @@ def kmodel(chk):
 
 def run(chk):
     memoise_lut()
+    import numba
+    numba.set_num_threads(2)      # tiny arrays: thread fan-out only burns CPU here (C11 varies the thread count)
     rng = random.Random(chk.seed)
     tier = chk.tier
     kmodel(chk)
@@ -157,7 +159,14 @@ def run(chk):
                         'a fault is "really refused" iff the public call raises any Exception']
     tcases = [tlc_case(c) for c in cases]
     dh.explore(chk, tcases, maxb, maxc, maxr, 'histories-with-rejects')
-    hists = dh.generate(chk, tcases, maxb, maxc, maxr, 'histories-with-rejects')
+    if tier == 'quick':
+        # every history with ONE rejected call for every case; histories with two rejected calls for three representative cases
+        hists = dh.generate(chk, tcases, maxb, maxc, 1, 'histories-with-one-reject')
+        two = [i for i, c in enumerate(cases) if c['label'] in ('cpa', 'part-auto64', 'tplb')]
+        h2 = dh.generate(chk, [tcases[i] for i in two], maxb, maxc, 2, 'histories-with-two-rejects')
+        hists += [(two[ci], h) for ci, h in h2 if sum(1 for e in h if e['op'] == 'reject') == 2]
+    else:
+        hists = dh.generate(chk, tcases, maxb, maxc, maxr, 'histories-with-rejects')
     hists = [(ci, h) for ci, h in hists if any(e['op'] == 'reject' for e in h)]
     if tier == 'quick':
         r2 = random.Random(chk.seed + 1)
